@@ -142,6 +142,5 @@ def replay(chk, d):
     sp = chk.run_model([("vkey", c[1])])[0]
     print("impl:", i, "policy:", sp)
     if i != sp:
-        print("VIOLATION property=%s replay=(replayed) still fails" % chk.pid)
         return 1
     return 0
